@@ -224,6 +224,15 @@ def features(case):
                           for j, other in enumerate(scene["locs"]) if j != i):
             feats.append("gene_in_the_intron_of_another")
             break
+
+    def span_bases(loc):
+        fwd = loc["parts"][::-1] if loc["strand"] == -1 else loc["parts"]
+        walk = (fwd[-1][1] - fwd[0][0]) % scene["L"] or scene["L"]
+        return {(fwd[0][0] + step) % scene["L"] for step in range(walk)}
+    spans_of = [span_bases(loc) for loc in scene["locs"]]
+    if any(i != j and inner < outer for i, inner in enumerate(spans_of) for j, outer in enumerate(spans_of)):
+        # (strictly inside, outer start to outer end: such a pair is not in order of distance from everything else)
+        feats.append("gene_inside_the_span_of_another")
     return sorted(set(feats))
 
 
